@@ -110,6 +110,9 @@ pub struct Interp<'a> {
     /// stop interpreting this case without a verdict (the pool did something that belongs
     /// to a property this engine does not judge and the books cannot follow)
     pub(crate) skip_rest: bool,
+    /// execution intervals of resize() calls on a logical clock: (start, end, target)
+    pub(crate) resize_hist: Vec<(u64, Option<u64>, usize)>,
+    pub(crate) tick: u64,
     pub(crate) known: Vec<String>,
     pub(crate) labels: Vec<String>,
     // history facts
@@ -185,6 +188,8 @@ impl<'a> Interp<'a> {
             violation: None,
             inconclusive: None,
             skip_rest: false,
+            resize_hist: vec![],
+            tick: 0,
             known: Vec::new(),
             labels: Vec::new(),
             close_started: false,
@@ -1274,6 +1279,8 @@ impl<'a> Interp<'a> {
         let op = self.new_op(OpKind::Resize);
         self.resize_started = true;
         self.events_for_rest += 1;
+        self.tick += 1;
+        self.resize_hist.push((self.tick, None, n));
         let before = if self.quiescent() { self.snapshot() } else { None };
         match pause {
             None => {
@@ -1323,6 +1330,29 @@ impl<'a> Interp<'a> {
             // raced with close: C06 judges the final state at quiescence
             return;
         }
+        // Where inside a resize() the new limit takes effect is not part of any statement: when
+        // the execution intervals of two resizes overlap either may have been the later one.
+        // The pool's own max_size tells which; it must be the target of this call or of a
+        // call that overlapped it.
+        self.tick += 1;
+        let now = self.tick;
+        let mut rivals: Vec<usize> = vec![];
+        if let Some(i) = self.resize_hist.iter().position(|e| e.1.is_none() && e.2 == n) {
+            self.resize_hist[i].1 = Some(now);
+            let start = self.resize_hist[i].0;
+            for (j, e) in self.resize_hist.iter().enumerate() {
+                if j != i && e.1.map(|end| end > start).unwrap_or(true) {
+                    rivals.push(e.2);
+                }
+            }
+        }
+        let n = match after {
+            Some(a) if a.max_size != n && rivals.contains(&a.max_size) => {
+                self.label("resize:overlapping-resize-won");
+                a.max_size
+            }
+            _ => n,
+        };
         self.limit = Some(n);
         if let Some(a) = after {
             if self.parked.iter().all(|p| !matches!(p.kind, PKind::Resize(_) | PKind::Close)) {
